@@ -29,12 +29,19 @@ out.append("| seed | property | needs, to manifest | latest result of the proper
 for d in sorted(glob.glob(f'{root}/seeded/*/meta.json')):
     m = json.load(open(d))
     res = m.get('check_results', ['(not run yet)'])
-    last = res[-1]
+    own = [r for r in res if not r.startswith('cross-check')]
+    cross = [r for r in res if r.startswith('cross-check') and 'exit=1' in r]
+    last = own[-1] if own else '(not run yet)'
     caught = 'exit=1' in last
-    missed_before = any('exit=0' in r for r in res[:-1])
+    missed_before = any('exit=0' in r or 'exit=2' in r for r in own[:-1])
     keys = re.findall(r'key=(\S+)', last)[:3]
-    verdict = ("caught" if caught else "NOT caught") + (" (after strengthening; first run missed it)" if caught and missed_before else "")
-    out.append(f"| {m['seed_id']} | {m['breaks_property']} | {m.get('needs_to_manifest','').replace('|','/')} | {verdict}{': ' + ', '.join('`'+k+'`' for k in keys) if keys else ''} |")
+    if caught:
+        verdict = "caught" + (" (after strengthening; an earlier run missed it)" if missed_before else "")
+    elif cross:
+        verdict = "not by this property's own check; " + cross[-1].replace('cross-check: ', 'caught by cross-check: ')[:260]
+    else:
+        verdict = "NOT caught"
+    out.append(f"| {m['seed_id']} | {m['breaks_property']} | {m.get('needs_to_manifest','').replace('|','/')} | {verdict}{': ' + ', '.join('`'+k+'`' for k in keys) if keys and caught else ''} |")
 gen = "\n".join(out) + "\n"
 p = f'{root}/DESIGN.md'
 s = open(p).read()
